@@ -26,10 +26,11 @@ func runC14(c *Ctx) {
 	c14Lexemes(c)
 	c14ReturnsStored(c)
 	c14Keywords(c)
-	c14FastPath(c)
+	c14FastPath(c, "C14.fastpath-agrees")
 	c14PeekHelpers(c, "C14.peek-helpers")
 	c14TriviaStep(c)
 	c14RangeLookup(c)
+	c14LookaheadGuards(c)
 	c14RangeTables(c)
 	c14ClassTables(c)
 	c14Flag(c)
@@ -700,8 +701,7 @@ func (c *Ctx) foldRuneFn(name string, r rune) (bool, bool) {
 	return c.foldRunePred(f, r)
 }
 
-func c14FastPath(c *Ctx) {
-	const rule = "C14.fastpath-agrees"
+func c14FastPath(c *Ctx, rule string) {
 	scan := c.scanFn()
 	ch, _ := decodedRune(scan)
 	if ch == nil {
